@@ -207,6 +207,25 @@ def run(chk: Check) -> None:
             if back != "ok\t" + h:
                 chk.violation(f"flag:{lsb}:{h}", f"flag8 {h} -> {bits} -> {back!r}", {"byte": h, "lsb": lsb})
 
+    # ... and again after a caller has *used* the decoded list the usual way (set / clear a flag in place, re-encode):
+    # the value decoded for a byte does not depend on what earlier callers did with their copy
+    for form in ("kw", "pos", "default"):
+        for b in range(256):
+            h = f"{b:02X}"
+            lsb = form != "default" and b % 2 == 0
+            dec = (lambda: H.hex_to_flag8(h, lsb=lsb)) if form == "kw" else (lambda: H.hex_to_flag8(h, lsb)) if form == "pos" else (lambda: H.hex_to_flag8(h))
+            bits = dec()
+            k = b % 8
+            bits[k] ^= 1                      # the caller toggles a flag ...
+            H.hex_from_flag8(bits, lsb)       # ... and builds the new byte
+            again = dec()
+            want = [(b >> x) & 1 for x in (range(8) if lsb else reversed(range(8)))]
+            chk.evaluations += 1
+            if list(again) != want:
+                chk.violation(f"flag.history:{form}", f"hex_to_flag8({h!r}, lsb={lsb}) reads {list(again)} after an earlier caller toggled bit {k} of its own copy "
+                              f"(a fresh decode gives {want})", {"byte": h, "lsb": lsb, "form": form})
+                break
+
     # ---- text -----------------------------------------------------------------------------------------
     alphabet = [chr(c) for c in range(32, 127)]
     for _ in range(400):
